@@ -20,7 +20,7 @@ from sim import linkfuncs as LF
 
 PROP = 'C05'
 TIERS = {
-    'quick': {'runs': 3200, 'blocks': 16, 'max_ops': 24, 'hist': 0.04},
+    'quick': {'runs': 3200, 'blocks': 16, 'max_ops': 24, 'hist': 0.06},
     'thorough': {'runs': 64000, 'blocks': 64, 'max_ops': 60, 'hist': 0.05},
 }
 RULE = ('Each run is one seeded history interleaving writes {update_components, update_values_from_data (same shape / new shape), '
@@ -92,6 +92,9 @@ def generate(rng, cfg, guards):
     if hist:
         # a real histogram viewer (matplotlib, Agg): what it plots is cached in HistogramLayerState
         ops.append(['hv_new', 0])
+        if rng.chance(0.5):
+            # the display flags are not part of what the viewer's cache is keyed on: read normalised, then plain
+            ops += [['hv_flags', True, False], ['hv_read'], ['hv_flags', False, rng.chance(0.3)], ['check']]
         n = min(n, 14)
         pairs = sorted(dict(pairs, hv_read=8, hv_flags=4).items())
     while len(ops) < n:
